@@ -666,8 +666,11 @@ public:
         jstr(os, cs.str());
         if (auto *spec = dyn_cast<ClassTemplateSpecializationDecl>(md->getParent())) {
           auto from = spec->getSpecializedTemplateOrPartial();
-          if (auto *ps = from.dyn_cast<ClassTemplatePartialSpecializationDecl *>())
+          if (auto *ps = from.dyn_cast<ClassTemplatePartialSpecializationDecl *>()) {
             os << ",\"partial_line\":" << lineOf(ps->getLocation());
+            os << ",\"partial_sig\":";
+            jstr(os, ps->getInjectedSpecializationType().getAsString());
+          }
           else if (auto *ct = from.dyn_cast<ClassTemplateDecl *>())
             os << ",\"primary_line\":" << lineOf(ct->getLocation());
         }
@@ -871,7 +874,13 @@ public:
       std::vector<const VarDecl *> gvars;
       std::vector<const RecordDecl *> recs;
       std::vector<const FunctionDecl *> protos;
+      std::vector<const ClassTemplatePartialSpecializationDecl *> partials;
       V(Exporter &x, bool &f) : X(x), first(f) {}
+      bool VisitClassTemplatePartialSpecializationDecl(ClassTemplatePartialSpecializationDecl *D) {
+        if (D->isThisDeclarationADefinition())
+          partials.push_back(D);
+        return true;
+      }
       bool shouldVisitTemplateInstantiations() const { return true; }
       bool VisitFunctionDecl(FunctionDecl *FD) {
         if (X.wanted(FD))
@@ -919,6 +928,26 @@ public:
         X.emitCalleeParams(nullptr, fd);
         if (fd->isNoReturn())
           out << ",\"noreturn\":1";
+        out << "}";
+      }
+    out << "\n],\"partials\":[\n";
+    first = true;
+    if (gCxx)
+      for (auto *ps : v.partials) {
+        bool hasEval = false;
+        for (auto *d : ps->decls())
+          if (auto *m = dyn_cast<CXXMethodDecl>(d))
+            if (m->getNameAsString() == "eval")
+              hasEval = true;
+        if (!first)
+          out << ",\n";
+        first = false;
+        out << "{\"name\":";
+        jstr(out, ps->getNameAsString());
+        out << ",\"file\":";
+        jstr(out, X.fileOf(ps->getLocation()));
+        out << ",\"line\":" << X.lineOf(ps->getLocation()) << ",\"has_eval\":" << (hasEval ? 1 : 0) << ",\"sig\":";
+        jstr(out, ps->getInjectedSpecializationType().getAsString());
         out << "}";
       }
     out << "\n]}\n";
